@@ -196,7 +196,8 @@ pub fn strict_load(b: &[u8]) -> Result<StrictDoc, String> {
                 let prev_end = pos + 5;
                 // bytes between prev_end and low must be: optional EOL, `%PDF-…` line, `%…` line
                 let mut i = prev_end;
-                if let Some(n) = eol_len(b, i) { i += n; }
+                // end-of-line characters after the previous %%EOF (any number: LF, CRLF, CR, blank lines)
+                while matches!(b.get(i), Some(b'\n') | Some(b'\r')) { i += 1; }
                 if !b[i..].starts_with(b"%PDF-") { return rule("unaccounted bytes between revisions"); }
                 while i < low && b[i] != b'\n' { i += 1; } i += 1;
                 if b.get(i) != Some(&b'%') { return rule("unaccounted bytes between revisions"); }
